@@ -38,6 +38,21 @@ impl ListDefinitionsOrigin {
         list_definitions_origin
     }
 
+    #[cfg(feature = "verif")]
+    pub(crate) fn verif_dump(&self) -> Vec<(String, Vec<(String, i32)>)> {
+        let mut out: Vec<(String, Vec<(String, i32)>)> = self
+            .lists
+            .iter()
+            .map(|(name, def)| {
+                let mut items = def.verif_items();
+                items.sort();
+                (name.clone(), items)
+            })
+            .collect();
+        out.sort();
+        out
+    }
+
     pub fn get_list_definition(&self, name: &str) -> Option<&ListDefinition> {
         self.lists.get(name)
     }
